@@ -52,56 +52,6 @@ theorem ctor_loop2_sinv (dp : BitVec 32) (st : Nat × NTT_Goldilocks) (b : Bool)
     rw [← hstep]
     exact ⟨h1, h2, h3⟩
 
-/-- the loop `roots[i] = roots[i-1] * roots[1]`, 2 ≤ i < n, on a block of n words -/
-theorem ctor_loop3_safe (obj : NTT_Goldilocks) (n : Nat) (H : Heap) (hr : obj.roots.off + n ≤ H.ext obj.roots.blk) :
-    Loop.RangeAll 2 n H (NTT_ctor_loop3 obj) (fun i st => NTT_ctor_loop3.Safe obj i st) := by
-  refine Loop.RangeAll.of_same (fun i s _ => ctor_loop3_same _ i s) (fun i st h1 h2 hst => ?_)
-  unfold NTT_ctor_loop3.Safe
-  zeta_goal
-  exact ⟨⟨InB_base (by rw [hst.2]; omega), InB_base (by rw [hst.2]; omega)⟩, InB_base (by rw [hst.2]; omega)⟩
-
-/-- the loop `powTwoInv[i] = powTwoInv[i-1] * powTwoInv[1]`, 2 ≤ i ≤ s: every state the `while` reaches -/
-theorem ctor_loop4_safe (obj : NTT_Goldilocks) (S : Nat) (hS : obj.s.toNat = S) (hS1 : 1 ≤ S) (hS32 : S ≤ 32) (H : Heap)
-    (hq : obj.powTwoInv.off + S + 1 ≤ H.ext obj.powTwoInv.blk) :
-    Loop.WhileAll (NTT_ctor_loop4 obj) (H, 2#64) (fun st => NTT_ctor_loop4.Safe obj st) := by
-  have hw : (BitVec.setWidth 64 obj.s).toNat = S := by
-    rw [BitVec.toNat_setWidth, hS]; exact Nat.mod_eq_of_lt (by omega)
-  have h1 : (1#64 : BitVec 64).toNat = 1 := rfl
-  refine Loop.WhileAll.of_inv (fun st => Heap.Same H st.1 ∧ 2 ≤ st.2.toNat ∧ st.2.toNat ≤ S + 2)
-    ⟨Heap.Same.refl _, by show 2 ≤ (2#64 : BitVec 64).toNat; decide, by show 2 ≤ S + 2; omega⟩ ?_ ?_
-  · intro s s' hinv hstep
-    unfold NTT_ctor_loop4 at hstep
-    dsimp only at hstep
-    by_cases hc : decide (s.2 ≤ BitVec.setWidth 64 obj.s) = true
-    · rw [if_pos hc] at hstep
-      injection hstep with hstep
-      injection hstep with _ hstep
-      rw [← hstep]
-      have hle := of_decide_eq_true hc
-      rw [BitVec.le_def, hw] at hle
-      have e : (s.2 + 1#64).toNat = s.2.toNat + 1 := by
-        rw [BitVec.toNat_add, h1]; exact Nat.mod_eq_of_lt (by omega)
-      refine ⟨hinv.1.trans (Heap.Same.set _ _ _ _), ?_, ?_⟩
-      · show 2 ≤ (s.2 + 1#64).toNat; omega
-      · show (s.2 + 1#64).toNat ≤ S + 2; omega
-    · rw [if_neg hc] at hstep
-      injection hstep with hstep
-      injection hstep with hb _
-      exact absurd hb (by decide)
-  · intro s hinv
-    obtain ⟨hsame, i2, _⟩ := hinv
-    unfold NTT_ctor_loop4.Safe
-    zeta_goal
-    intro hc
-    have hle := of_decide_eq_true hc
-    rw [BitVec.le_def, hw] at hle
-    have e : (s.2 - 1#64).toNat = s.2.toNat - 1 := by
-      rw [BitVec.toNat_sub, h1]
-      have := s.2.isLt
-      omega
-    rw [e]
-    exact ⟨⟨InB_base (by rw [hsame.2]; omega), InB_base (by rw [hsame.2]; omega)⟩, InB_base (by rw [hsame.2]; omega)⟩
-
 /-- **in-bounds accesses of the constructor** — for every heap, every `maxDomainSize`, thread count, extension and fuel -/
 theorem ctor_safe (fuel : Nat) (hp : Heap) (self : NTT_Goldilocks) (m : BitVec 64) (thr : BitVec 32) (e : Int) :
     NTT_ctor.Safe fuel hp self m thr e := by
@@ -142,18 +92,63 @@ theorem ctor_safe (fuel : Nat) (hp : Heap) (self : NTT_Goldilocks) (m : BitVec 6
   have q0 : H.InB ⟨hp.size + 1, 0⟩ 0 := InB_base (by show 0 + 0 < H.ext (hp.size + 1); omega)
   have q1 : H.InB ⟨hp.size + 1, 0⟩ 1 := InB_base (by show 0 + 1 < H.ext (hp.size + 1); omega)
   refine ⟨r0, q0.same (by heap_steps), fun _ => ⟨r1.same (by heap_steps), q1.same (by heap_steps)⟩, ?_, fun y hy => ?_⟩
-  · refine ctor_loop3_safe _ (2 ^ S) _ ?_
-    show 0 + 2 ^ S ≤ Heap.ext _ hp.size
-    rw [Heap.ext_set, Heap.ext_set, Heap.ext_set, Heap.ext_set, x1]; omega
+  · -- the loop `roots[i] = roots[i-1] * roots[1]`, 2 ≤ i < 2^s, on the block of 2^s words
+    refine Loop.RangeAll.of_same (fun i s _ => by loop_same) (fun i st h1 h2 hst => ?_)
+    have hr : 0 + 2 ^ S ≤ st.ext hp.size := by
+      rw [hst.2, Heap.ext_set, Heap.ext_set, Heap.ext_set, Heap.ext_set, x1]; omega
+    unfold_loops
+    zeta_goal
+    repeat' apply And.intro
+    all_goals exact InB_base (by simp only [Heap.ext_set]; omega)
   · have hsame : Heap.Same H y := by
       have h0 : Heap.Same H ((((H.set ⟨hp.size, 0⟩ 0 Gen.Scalar.one__r).set ⟨hp.size + 1, 0⟩ 0 Gen.Scalar.one__r).set
           ⟨hp.size, 0⟩ 1 (Gen.Scalar.w__rE (BitVec.setWidth 64 y1))).set ⟨hp.size + 1, 0⟩ 1
           (Gen.Scalar.fromU64__rE (Gmp.get_ui (Gmp.invert 2 (18446744069414584320 + 1))))) := by heap_steps
       exact h0.trans (OInv.rangeM (P := Heap.Same _) _ _ _ _ _ (Heap.Same.refl _)
-        (fun i s hs => OInv.of_same hs (ctor_loop3_same _ i s)) y hy)
+        (fun i s hs => OInv.of_same hs (by loop_same)) y hy)
     refine ⟨⟨rl.same hsame, r1.same hsame⟩, fun _ => ?_⟩
-    refine ctor_loop4_safe _ S hS hS1 hS32 y ?_
-    show 0 + S + 1 ≤ y.ext (hp.size + 1)
-    rw [hsame.2, x2]; omega
+    -- the loop `powTwoInv[i] = powTwoInv[i-1] * 2^-1`, 2 ≤ i ≤ s (2^-1 = `powTwoInv[1]` read in every iteration, or once in
+    -- front of the loop): every state the `while` reaches
+    have hq : 0 + S + 1 ≤ y.ext (hp.size + 1) := by rw [hsame.2, x2]; omega
+    have hw : (BitVec.setWidth 64 sv).toNat = S := by
+      rw [BitVec.toNat_setWidth, hS]; exact Nat.mod_eq_of_lt (by omega)
+    have h1 : (1#64 : BitVec 64).toNat = 1 := rfl
+    repeat' apply And.intro
+    try any_goals exact q1.same hsame
+    refine Loop.WhileAll.of_inv (fun st => Heap.Same y st.1 ∧ 2 ≤ st.2.toNat ∧ st.2.toNat ≤ S + 2)
+      ⟨Heap.Same.refl _, by show 2 ≤ (2#64 : BitVec 64).toNat; decide, by show 2 ≤ S + 2; omega⟩ ?_ ?_
+    · intro s s' hinv hstep
+      unfold_loops at hstep
+      dsimp only at hstep
+      by_cases hc : decide (s.2 ≤ BitVec.setWidth 64 sv) = true
+      · rw [if_pos hc] at hstep
+        injection hstep with hstep
+        injection hstep with _ hstep
+        rw [← hstep]
+        have hle := of_decide_eq_true hc
+        rw [BitVec.le_def, hw] at hle
+        have e : (s.2 + 1#64).toNat = s.2.toNat + 1 := by
+          rw [BitVec.toNat_add, h1]; exact Nat.mod_eq_of_lt (by omega)
+        refine ⟨hinv.1.trans (Heap.Same.set _ _ _ _), ?_, ?_⟩
+        · show 2 ≤ (s.2 + 1#64).toNat; omega
+        · show (s.2 + 1#64).toNat ≤ S + 2; omega
+      · rw [if_neg hc] at hstep
+        injection hstep with hstep
+        injection hstep with hb _
+        exact absurd hb (by decide)
+    · intro s hinv
+      obtain ⟨hsame', i2, _⟩ := hinv
+      unfold_loops
+      zeta_goal
+      intro hc
+      have hle := of_decide_eq_true hc
+      rw [BitVec.le_def, hw] at hle
+      have e : (s.2 - 1#64).toNat = s.2.toNat - 1 := by
+        rw [BitVec.toNat_sub, h1]
+        have := s.2.isLt
+        omega
+      rw [e]
+      repeat' apply And.intro
+      all_goals exact InB_base (by simp only [Heap.ext_set, hsame'.2]; omega)
 
 end GoldilocksVerif.HeapSafe
